@@ -934,6 +934,35 @@ MACRO_KERNELS = [
 ]
 
 
+# functions over ONE struct passed by pointer and read only through `p->field`: translated with the fields as parameters
+# (file, function, pointer parameter, [(field, C type)], [(other scalar parameter, C type)], Lean name, return type)
+FIELD_KERNELS = [
+    ("agent/agent.c", "nice_input_message_iter_get_n_valid_messages", "iter",
+     [("message", "guint"), ("buffer", "guint"), ("offset", "gsize")], [], "iter_n_valid_messages", "guint"),
+    ("agent/agent.c", "nice_input_message_iter_is_at_end", "iter",
+     [("message", "guint"), ("buffer", "guint"), ("offset", "gsize")], [("n_messages", "guint")], "iter_is_at_end", "gboolean"),
+]
+
+
+def field_kernel_source(file, fn, ptr, fields, extra, stub, rty):
+    """the function's own body, from the current source, with `ptr->field` spelled `field` and the fields (plus the other
+    scalar parameters that the body uses) as parameters.  Refuses a body that uses the pointer in any other way, reads a
+    field that is not listed, or assigns to one."""
+    txt = open(os.path.join(REPO, file)).read()
+    ft = function_text(txt, fn, file)
+    body = ft[ft.index("{"):]
+    body = re.sub(r"/\*.*?\*/", "", body, flags=re.S)
+    used = set(re.findall(r"\b" + ptr + r"\s*->\s*(\w+)", body))
+    if not used <= {f for f, _ in fields}:
+        raise Unsupported(f"{fn}: reads fields {sorted(used - {f for f, _ in fields})} that are not listed")
+    if re.search(r"\b" + ptr + r"\s*->\s*\w+\s*(=[^=]|\+\+|--|[-+*/|&^]=)", body):
+        raise Unsupported(f"{fn}: writes through {ptr}")
+    body = re.sub(r"\b" + ptr + r"\s*->\s*(\w+)", r"\1", body)
+    if ptr in re.findall(r"\w+", body):
+        raise Unsupported(f"{fn}: uses {ptr} other than through ->")
+    return "#include <glib.h>\n" + f"{rty} {stub} (" + ", ".join(f"{t} {f}" for f, t in fields + extra) + ")\n" + body + "\n"
+
+
 def define_text(txt, n, file):
     m = re.search(r"^#\s*define\s+" + n + r"\b((?:.*\\\n)*.*)$", txt, re.M)
     if not m:
@@ -1062,6 +1091,20 @@ def main2():
                                              hashlib.sha256(json.dumps(d["inner"][-1], sort_keys=True).encode()).hexdigest()[:12]}
         except Unsupported as e:
             report["errors"].append(f"{file}: macros: {e}")
+    for file, fn, ptr, fields, extra, stub, rty in FIELD_KERNELS:
+        try:
+            src = field_kernel_source(file, fn, ptr, fields, extra, stub, rty)
+            with tempfile.TemporaryDirectory(dir=BUILD) as td:
+                c = os.path.join(td, "fields.c")
+                open(c, "w").write(src)
+                d = ast_of(c, stub)
+                F = Fn(d, known, consts, f"{file} {fn} (fields of *{ptr} as parameters)")
+                out.append(F.emit())
+                known[stub] = []
+                report["kernels"][stub] = {"file": file, "function": fn, "ast_hash":
+                                           hashlib.sha256(json.dumps(d["inner"][-1], sort_keys=True).encode()).hexdigest()[:12]}
+        except Unsupported as e:
+            report["errors"].append(f"{file}:{fn}: {e}")
     try:
         write_ptcp_statics()
     except Unsupported as e:
